@@ -119,7 +119,7 @@ func main() {
 				"family=small", "family=p32", "family=p63", "family=mixed", "secret=ternary", "secret=ones", "secret=monomial",
 				"actives=exactly-t", "actives=fewer-than-t", "actives=superset", "refused=fewer-than-t", "downstream=decrypts",
 				"point>q=true", "point>q=false", "point>=2^63=true", "others-order=index", "others-order=reversed", "others-order=own-omitted",
-				"merge-variant=swap", "merge-variant=hop-first", "merge-variant=alias-second", "collide=no-panic",
+				"combiner-history=fresh", "combiner-history=after-reversed-list", "combiner-history=after-other-subset", "merge-variant=swap", "merge-variant=hop-first", "merge-variant=alias-second", "collide=no-panic",
 				"t=1", "t=N", "N=1", "N=5"}
 			if tier == "thorough" {
 				e = append(e, "N=6")
